@@ -10,8 +10,7 @@ Driver for C18.  One request per line, fields separated by `|`, tokens inside a 
         spec = SequenceType matching of XPath 3.1 with the model's restriction as subtype relation
         (`-` when the type uses a name that is no atomic type: static error, not modelled by the spec);
         dom = value and type are inside the domain of the theorem `match_eq_spec`,
-        fp = trigger of finding F18p (the parser rejects or corrupts this legal sequence type) on the tree without the
-        commits of branch fix-c18-5, fp2 = what is left of it with them; fpp / fpp2 the same for a parameter declaration.
+        fp = trigger of finding F18p (the parser rejects this legal sequence type), fpp the same for a parameter declaration.
 
   H|<xsd11 0/1>|<unused>|<pool: n value^n>|<op>;<op>;…   → `hist=<e>;<e>;…`   (judgement history on function items)
         op ::= jm <i> <ty> | ji <i> <ty> | jt <i> <ty> | ja <i> <ty> | c <i> <k> <ty> <ty> | p <i> <n> <0/1>^n
@@ -24,6 +23,9 @@ Driver for C18.  One request per line, fields separated by `|`, tokens inside a 
 
   T|<ty>                         → `text=<the normalised text of the type>` and, for a typed function test,
         ` split=<piece>␟<piece>…␟=>␟<return text>` (what `partition(') as ')` / `split(', ')` extract; ␟ = U+241F)
+
+  E|<xsd11 0/1>|<operand: `err <k>` or a value>|<ty>   → `inst=<j> treat=<j>`   (judgement on an operand expression)
+        j = T | F | E:<code> (raised by the judgement itself) | O:<k> (the operand's error number k, propagated)
 
 Token syntax (Polish notation):
   ty    ::= E | L <leaf> <occ> | F <n> <ty>^n <ty> | M <k> <ty> <occ> | A <ty> <occ>
@@ -40,6 +42,7 @@ import EPV.Spec.XPathTypes
 import EPV.Lemmas.SeqTypeSpec
 import EPV.Lemmas.SeqTypeHist
 import EPV.Lemmas.SeqTypeText
+import EPV.Lemmas.SeqTypeErr
 import EPV.Gen.C18Tables
 open EPV.Proto EPV.SeqType
 
@@ -168,7 +171,7 @@ def judge (x : String) (cfg : NsCfg) (t v : String) : String :=
         | [.func sa sr], .func a r => if funcItemTestArg tables sa sr a r then "T" else "F"
         | _, _ => match convertArg tables xsd11 ty val with
           | .ok _ => "T" | .error .XPDY0050 => "F" | .error e => showRes (.error e)
-      s!"match={showRes m} inst={showRes i} treat={tr} spec={sp} dom={b01 (domT ty val)} fp={b01 ty.parserGap} fp2={b01 ty.parserGap2} fk={b01 ty.hasTypeArg} param={pr} fpp={b01 (ty.gapAt false false true)} fpp2={b01 (ty.gap2At true)}"
+      s!"match={showRes m} inst={showRes i} treat={tr} spec={sp} dom={b01 (domT ty val)} fp={b01 ty.parserGap} fk={b01 ty.hasTypeArg} param={pr} fpp={b01 (ty.gapAt true)}"
   | _, _ => "bad-judgement"
 
 open EPV.Gen.C18 in
@@ -183,6 +186,19 @@ def answer (line : String) : String :=
     match (toks c).mapM (·.toNat?) with
     | some [d, p, q] => judge x ⟨d, p, q⟩ t v
     | _ => "bad-cfg"
+  | ["E", x, o, t] =>
+    match parseAll pTy t with
+    | some ty =>
+      let operand : Option (Except Nat (List Item)) := match toks o with
+        | ["err", k] => k.toNat?.map Except.error
+        | _ => (parseAll pValue o).map Except.ok
+      match operand with
+      | some op =>
+        let sh : JRes → String
+          | .ok true => "T" | .ok false => "F" | .err e => showRes (.error e) | .operandErr k => s!"O:{k}"
+        s!"inst={sh (instanceOfOp tables (x == "1") ty op)} treat={sh (treatAsOp tables (x == "1") ty op)}"
+      | none => "bad-operand"
+    | none => "bad-type"
   | ["T", t] =>
     match parseAll pTy t with
     | some ty =>
